@@ -124,10 +124,25 @@ theorem retire_unissued_kind_fails : ¬ (Local.unissuedKind false = Local.rfcUni
 /-- with `repo_patches/fix-C14-retire-unissued-kind.diff` -/
 theorem retire_unissued_kind : Local.unissuedKind true = Local.rfcUnissuedKind := by decide
 
-/-- number of ids issued by `set_limit(n)`: `n - largest` loop iterations, nothing bounds it (DESIGN §7 item 9, C04) -/
+/-- number of ids issued by `set_limit(n)`: `min n 64 - largest` loop iterations (`fix-C04-setlimit-cap.diff`; before it
+`n - largest`, DESIGN §7 item 9) -/
 theorem set_limit_cost (l : Local) (next n : Nat) (l' : Local) (fs : List NewCid)
-    (h : l.setLimit next n = .ok l' fs) : fs.length = n - l.largest :=
+    (h : l.setLimit next n = .ok l' fs) : fs.length = min n Local.maxIssuedActiveCids - l.largest :=
   (Local.setLimit_ok h).2.2.2.2.2.2.2.2.2
+
+/-- **issued_le_64_outstanding**: however large the peer's active_connection_id_limit, `set_limit` issues at most 64 ids
+and leaves at most `max 64 (ids issued before)` sequence numbers issued; never more than the peer's limit allows
+(`local_active_le_limit` holds a fortiori) -/
+theorem issued_le_64_outstanding (l : Local) (next n : Nat) (l' : Local) (fs : List NewCid)
+    (h : l.setLimit next n = .ok l' fs) :
+    fs.length ≤ 64 ∧ l'.largest ≤ max l.largest 64 ∧ fs.length ≤ n - l.largest := by
+  have hs := Local.setLimit_ok h
+  have h1 := hs.2.2.2.2.2.1
+  have h2 := hs.2.2.2.2.2.2.2.2.2
+  have : Local.maxIssuedActiveCids = 64 := rfl
+  omega
+
+example : ∃ l' fs, (Local.new (.ext 0) (.gen 0)).1.setLimit 1 1000 = .ok l' fs ∧ fs.length = 62 := ⟨_, _, rfl, by decide⟩
 
 
 /-! ## ids issued by the peer (`RRun`: any history of NEW_CONNECTION_ID frames — reordered, duplicated, with any
@@ -229,9 +244,11 @@ example : ((RRun.run .exact 2 [.apply, .initial (.ext 0) 0, .newcid 1 0 (.ext 1)
 /-! ### a legal NEW_CONNECTION_ID frame is not rejected -/
 
 /-- the statement: a NEW_CONNECTION_ID frame is answered with CONNECTION_ID_LIMIT_ERROR only if processing it (insert,
-then retire-prior-to) would leave more than `active_connection_id_limit` active peer ids -/
+then retire-prior-to) would leave more than `active_connection_id_limit` active peer ids — for a frame whose sequence
+number is at most `max 4096 limit` beyond the largest received (further ahead: `far_ahead_rejected`) -/
 def LegalIssueAccepted (fixed : Remote.Tree) : Prop :=
   ∀ (limit : Nat) (ops : List ROp) (seq rpt : Nat) (cid : Cid) (s' s2 : Remote),
+    (RRun.run fixed limit ops).s.farAhead seq = false →
     (RRun.run fixed limit ops).s.recvNewCid fixed seq rpt cid = .errLimit s' →
     ((RRun.run fixed limit ops).s.insertCid seq cid).1.retirePriorTo rpt = .ok s2 →
     s2.activeCount > s2.limit
@@ -243,17 +260,18 @@ rejected because 3 − 0 > 2 -/
 theorem legal_issue_accepted_fails : ¬ LegalIssueAccepted .counted := by
   intro h
   have := h 2 [.apply, .initial (.ext 0) 0, .newcid 1 0 (.ext 1), .apply, .retireCell 1, .apply, .newcid 2 0 (.ext 2), .retireCell 2, .apply]
-    3 0 (.ext 3) _ _ rfl rfl
+    3 0 (.ext 3) _ _ (by decide) rfl rfl
   revert this
   decide
 
 /-- what does hold on every tree: a frame that passes the pre-test is rejected only for too many active ids -/
 theorem legal_issue_accepted_partial (fixed : Remote.Tree) (s : Remote) (seq rpt : Nat) (cid : Cid) (s' s2 : Remote)
-    (hpre : seq - rpt ≤ s.limit)
+    (hpre : seq - rpt ≤ s.limit) (hnf : s.farAhead seq = false)
     (h : s.recvNewCid fixed seq rpt cid = .errLimit s') (h2 : (s.insertCid seq cid).1.retirePriorTo rpt = .ok s2) :
     s2.activeCount > s2.limit := by
   unfold Remote.recvNewCid at h
-  have hp : ¬ ((fixed.pre && decide (seq - rpt > s.limit)) = true) := by simp; intro _; omega
+  have hp : ¬ ((fixed.pre && decide (seq - rpt > s.limit) || fixed.gap && decide (s.coff ≤ seq) && s.farAhead seq) = true) := by
+    simp [hnf]; intro _; omega
   split at h
   · rename_i hc; exact absurd hc hp
   split at h
@@ -275,11 +293,11 @@ example : ∃ s' s2, (RRun.run .counted 2 [.apply, .initial (.ext 0) 0, .newcid 
 
 /-- with `fix-C14-legal-issue.diff` (the count alone decides): holds for every history -/
 theorem legal_issue_accepted : LegalIssueAccepted .exact := by
-  intro limit ops seq rpt cid s' s2 h h2
-  generalize (RRun.run .exact limit ops).s = s at h h2
+  intro limit ops seq rpt cid s' s2 hnf h h2
+  generalize (RRun.run .exact limit ops).s = s at hnf h h2
   unfold Remote.recvNewCid at h
   split at h
-  · rename_i hc; simp [Remote.Tree.pre] at hc
+  · rename_i hc; simp [Remote.Tree.pre, hnf] at hc
   split at h
   · cases h
   generalize hq : s.insertCid seq cid = q at h h2
@@ -296,6 +314,16 @@ theorem legal_issue_accepted : LegalIssueAccepted .exact := by
 /-- … and the witness history of `legal_issue_accepted_fails` is accepted there -/
 example : ∃ s', (RRun.run .exact 2 [.apply, .initial (.ext 0) 0, .newcid 1 0 (.ext 1), .apply, .retireCell 1, .apply, .newcid 2 0 (.ext 2),
     .retireCell 2, .apply]).s.recvNewCid .exact 3 0 (.ext 3) = .accepted s' := ⟨_, rfl⟩
+
+/-- **far_ahead_rejected** (/repo HEAD, `fix-C04-newcid-seq-gap.diff`): a sequence number more than `max 4096 limit`
+beyond the largest one received is answered with CONNECTION_ID_LIMIT_ERROR and nothing is inserted, retired or
+assigned (the state is the one before the frame) -/
+theorem far_ahead_rejected (s : Remote) (seq rpt : Nat) (cid : Cid) (hoff : s.coff ≤ seq) (h : s.farAhead seq = true) :
+    s.recvNewCid .exact seq rpt cid = .errLimit s := by
+  unfold Remote.recvNewCid
+  simp [Remote.Tree.gap, hoff, h]
+
+example : (Remote.init 2).coff ≤ 5000 ∧ (Remote.init 2).farAhead 5000 = true := by decide +kernel
 
 /-- cells by which one NEW_CONNECTION_ID frame grows the table: `seq - offset - len + 1`, bounded only by the
 sequence number the peer chooses (with `retire_prior_to = seq - limit` the limit test passes) — DESIGN §7 item 8, C04 -/
